@@ -57,7 +57,7 @@ ASSUMPTIONS = [
     "a peer that has closed its socket still lets our writes succeed (no RST "
     "is synthesised in this check; transport failures are C17)"]
 
-MODES = ["chunk", "byte", "chunk"]
+MODES = ["chunk", "byte", "sync", "asm", "reframe", "chunk", "reframe"]
 
 
 def plan(tier, base_seed):
@@ -204,6 +204,10 @@ def run(job, streams=None):
     ch = kernel.Chooser(seed=seed) if streams is None else \
         kernel.Chooser(streams=streams)
     sc = scen.draw_flavour(ch)
+    if ch.draw(12, "cfg.incompat") == 1:
+        # a failing handshake must fail the same way on every transport
+        sc["cset"]["cipherNames"] = ["aes128"]
+        sc["sset"]["cipherNames"] = ["aes256"]
     script = draw_script(ch, sc, mode)
     ref = execute(seed, sc, script, "ideal", kernel.Chooser(streams={}))
     refc = json.loads(json.dumps(comparable(ref), default=str))
@@ -241,10 +245,12 @@ def run(job, streams=None):
         probes["hrr"] = 1
     if stats.get("wouldblock_recv") or stats.get("wouldblock_send"):
         probes["wouldblock_mid_record"] = 1
-    if any(o[1] == "ok" and o[0] == "read" and o[2] and o[2][1] == 0
-           for w in "cs" for o in refc["ops"][w] if len(o) > 2
-           and isinstance(o[2], list)):
-        probes["closed_by_peer"] = 1
+    for w in "cs":
+        reads = [x for x in script if x[0] == w and x[1] == "read"]
+        outs = [o for o in refc["ops"][w] if o[0] == "read"]
+        for x, o in zip(reads, outs):
+            if o[1] == "ok" and isinstance(o[2], list) and o[2][1] < x[3]:
+                probes["closed_by_peer"] = 1
     steps = (ref["_sim"].steps if ref.get("_sim") else 0) + \
         (got["_sim"].steps if got.get("_sim") else got.get("_steps", 0))
     key = hashlib.sha256(json.dumps([sc, script, mode, ch.streams()],
